@@ -410,6 +410,21 @@ def gen_history_cases(rng, n):
     return out
 
 
+def gen_fault_cases(rng, n_mps, n_ttns):
+    """FAULT PATH: regular compress cases in which the k-th gesdd call of the sweep is made to raise LinAlgError"""
+    cases = [c for c in gen_oracle_cases(rng, n_mps, n_ttns)[8:] if not c.get("model", "").startswith("dense_")]
+    # small deterministic ones first (2-site chain with quantum numbers at M = 1: the seeded m12 scenario)
+    first = [{"kind": "mps", "model": "spin_qn", "n": n, "m_max": 8, "complex": False, "dir": d, "seed": 12 + n,
+              "cfg": {"crit": "fixed", "thr": 1e-3, "M": 1}, "gesdd_fail_at": 1} for n in (2, 4) for d in ("right", "left")]
+    first.append({"kind": "ttns", "parents": [-1, 0, 0], "qn": True, "nb": 2, "m_max": 8, "complex": False, "seed": 12,
+                  "cfg": {"crit": "fixed", "thr": 1e-3, "M": 1}, "gesdd_fail_at": 1})
+    for c in cases:
+        steps = (c["n"] - 1) if c["kind"] == "mps" else (len(c["parents"]) - 1)
+        # with quantum numbers every step issues several gesdd calls (one per block): aim inside the sweep
+        c["gesdd_fail_at"] = 1 if rng.random() < 0.4 else rng.randint(1, max(1, 2 * steps))
+    return first + cases
+
+
 def embed(script, call):
     """self-contained python snippet: the impl script's source + a call of its replay()"""
     src = open(os.path.join(common.VERIF, "harness", "impl", script)).read()
@@ -429,6 +444,7 @@ def run(ctx):
         "sweep schedules (iter_idx_list, compress loop + temp_m_trunc branch, _update_ms cut bond, compress_node, compress_recursion, set_bonddim) are translated by tx/trunc.py; the reshape position of m_trunc in _update_ms, the bond_dims convention and node_idx[child] are read by verbatim pattern match (translator aborts on any change)",
         "copies: CompressConfig.copy / MatrixProduct.metacopy / TTNS.metacopy translated into binding facts (fresh dict copy vs alias; copy() vs shared attribute); python object semantics modelled as a heap of attribute namespaces, arrays by value (no in-place writes into max_dims in configs.py: its assignment sites are checked by the translator)",
         "trace correspondence harness/impl/c05_trace.py: loggers wrapped around svd_qn / compute_m_trunc / set_bonddim / _update_ms / compress_node / truncate_tensors / push_cano_to_parent and logging limit containers; compared exactly with compress_trace / compress_dims / tree_compress_trace / tree_compress_dims under vm_compute (QR result dimensions passed as witness, validity after<=before checked)",
+        "fault path: the gesdd->gesvd fallback of svd_qn.optimized_svd is exercised by injection only (the k-th scipy.linalg.svd(lapack_driver='gesdd') call of a compress() is made to raise LinAlgError); a genuine LAPACK non-convergence is not produced",
         "modelled, not verified: binary64 rounding in the comparison and in LAPACK's SVD; that svd_qn returns a descending, non-negative spectrum and a valid SVD (checked per run by the oracle: descending, first cut = dense spectrum)",
         "NOT proved: Ky Fan's maximum principle (explicit hypothesis ky_fan_principle of C05_bounds_partial, from which both spectral inequalities are derived for chains) and the tensor-product instantiation of the projector classes; both inequalities of the property are checked numerically against dense SVDs on every run (chains and trees)",
     ]
@@ -544,12 +560,13 @@ def run(ctx):
     # 3. dense oracle on the real code: always
     n_mps, n_ttns = (600, 220) if quick else (6000, 2000)
     ocases = (json.load(open(CORPUS)).get("oracle", []) if os.path.exists(CORPUS) else []) + gen_oracle_cases(ctx.rng, n_mps, n_ttns) \
-        + gen_history_cases(ctx.rng, 60 if quick else 600)
+        + gen_history_cases(ctx.rng, 60 if quick else 600) \
+        + gen_fault_cases(ctx.rng, *((160, 70) if quick else (1600, 700)))
     per = 40
     ochunks = [ocases[i:i + per] for i in range(0, len(ocases), per)]
     ores = ctx.impl_par("c05_oracle.py", [{"cases": ch} for ch in ochunks], timeout=1500 if not quick else 400)
     o_fail = {}
-    o_stat = {"mps": 0, "ttns": 0, "history": 0, "history_compress_calls": 0, "truncating": 0, "skipped": 0, "tree_identity_gap_max": 0.0, "by_model": {}}
+    o_stat = {"mps": 0, "ttns": 0, "fault_path_cases": 0, "fault_path_fired": 0, "history": 0, "history_compress_calls": 0, "truncating": 0, "skipped": 0, "tree_identity_gap_max": 0.0, "by_model": {}}
     o_crash = None
     for (rc, res, out), ch in zip(ores, ochunks):
         if res is None:
@@ -561,6 +578,9 @@ def run(ctx):
                 o_stat["skipped"] += 1
                 continue
             o_stat[c["kind"]] += 1
+            if c.get("gesdd_fail_at"):
+                o_stat["fault_path_cases"] += 1
+                o_stat["fault_path_fired"] += 1 if r["stats"].get("fault_fired") else 0
             if c["kind"] == "history":
                 key = "history/" + c["base"]["kind"]
                 o_stat["history_compress_calls"] += len(r["stats"].get("ops", []))
@@ -573,7 +593,7 @@ def run(ctx):
                 o_stat["tree_identity_gap_max"] = max(o_stat["tree_identity_gap_max"], r["stats"].get("identity_gap", 0.0))
             if not r["ok"]:
                 for f in r["fails"]:
-                    k = c["kind"] + "-compress:" + f["what"].replace("history: ", "")
+                    k = ("fault-" if c.get("gesdd_fail_at") else "") + c["kind"] + "-compress:" + f["what"].replace("history: ", "")
                     # prefer the smallest failing case per class
                     size = c.get("n", len(c.get("parents", []))) if c["kind"] != "history" else \
                         10 * len(c["ops"]) + c["base"].get("n", len(c["base"].get("parents", [])))
@@ -609,7 +629,7 @@ def run(ctx):
         ctx.violation("kept-count:" + what, "; ".join(broken) if broken else "kept-count invariant (oracle only)",
                       dict(detail_common, failing_case=c, impl_m=mi, violated=what, all_classes=sorted(inv_fail, key=rank)),
                       found=True, repro=embed("c05_count.py", c))
-    for kind in ("mps", "ttns", "history"):
+    for kind in ("mps", "ttns", "history", "fault-mps", "fault-ttns"):
         ks = sorted([k for k in o_fail if k.startswith(kind + "-compress:")], key=lambda k: rank(k.split(":", 1)[1]))
         if not ks:
             continue
